@@ -112,10 +112,18 @@ package cluster
 //@     modifies elements(members)
 
 
+// The member record a node announces for itself: its id, the engine's
+// address, its region and exactly its registered kinds, in registration order.
 //@ func (c *Cluster).Member()
-//@   trusted
+//@   props C20 C18 C19
+//@   requires c != nil && c.engine != nil
 //@   modifies
 //@   ensures result != nil && fresh(result)
+//@   ensures[C18.member.self-description] result.ID == c.config.id && result.Host == c.engine.address && result.Region == c.config.region && len(result.Kinds) == len(c.kinds) && forall(k, 0 <= k && k < len(c.kinds) ==> result.Kinds[k] == c.kinds[k].name)
+//@   loop 1
+//@     invariant 0 <= i && i <= len(c.kinds) && len(kinds) == len(c.kinds) && fresh(kinds) && forall(k, 0 <= k && k < i ==> kinds[k] == c.kinds[k].name)
+//@     decreases len(c.kinds) - i
+//@     modifies elements(kinds)
 
 //@ func (s *SelfManaged).start(c)
 //@   trusted
